@@ -393,14 +393,23 @@ def explore(ctx):
             # turn master 1 into a sparse layer of master 0 holding two glyphs
             src = ds.sources[1]
             f0 = fonts[0]
-            layer = f0.newLayer("sparse")
             keep = list(sparse_keep)
-            for nm in keep:
-                gl = layer.newGlyph(nm)
-                fonts[1][nm].drawPoints(gl.getPointPen())
-                gl.width = fonts[1][nm].width
-            src.font = f0
-            src.layerName = "sparse"
+            if (i // 8) % 4 in (1, 3):
+                # the sparse master is a UFO of its own (layerName None) holding only the kept glyphs in its default layer
+                m1 = dict(masters[1], glyphs=[g for g in masters[1]["glyphs"] if g["name"] in keep], glyphOrder=list(keep), kerning={}, groups={})
+                src.font = build_font(m1, lib)
+                src.layerName = None
+                case_sparse_kind = "sparse UFO"
+            else:
+                layer = f0.newLayer("sparse")
+                for nm in keep:
+                    gl = layer.newGlyph(nm)
+                    fonts[1][nm].drawPoints(gl.getPointPen())
+                    gl.width = fonts[1][nm].width
+                src.font = f0
+                src.layerName = "sparse"
+                case_sparse_kind = "sparse layer"
+            ctx.klass("sparse master as: " + case_sparse_kind)
         case = {"function": fn, "options": jsonable(opts), "variant": variant, "masters": n, "lib": lib,
                 "font": jsonable(base), "last_master": jsonable(masters[-1])}
         ctx.count()
